@@ -1,7 +1,9 @@
 package props
 
 import (
+	"bytes"
 	"encoding/hex"
+	"encoding/json"
 	"encoding/pem"
 	"fmt"
 	"strings"
@@ -110,6 +112,39 @@ func c11(x *mon.Ctx) {
 			}
 		})
 		x.Require("honest-root-with-several-crl-distribution-points", n*3, 0, n*3)
+	}
+	// collateral whose signer signed a layout with insignificant white space inside the member (an indented document, blanks after
+	// the colons, a trailing newline inside the object): the signature is over the bytes of the member as they stand
+	{
+		n := x.Pick(6, 30)
+		x.Each(n, func(i int) {
+			r := x.Rand(fmt.Sprint("signed-layout", i))
+			w := richHonest(r)
+			w.Resign()
+			layout := func(js string) string {
+				switch i % 4 {
+				case 0:
+					var b bytes.Buffer
+					_ = json.Indent(&b, []byte(js), "", "  ")
+					return b.String()
+				case 1:
+					var b bytes.Buffer
+					_ = json.Indent(&b, []byte(js), "\t", "\t")
+					return b.String()
+				case 2:
+					return strings.Replace(strings.Replace(js, `":`, `": `, -1), `,"`, `, "`, -1)
+				}
+				return js[:len(js)-1] + "\n }"
+			}
+			w.TcbBody = world.SignedBody("tcbInfo", layout(w.Tcb.JSON()), w.PKI.TcbSign.Key)
+			w.QeBody = world.SignedBody("enclaveIdentity", layout(w.Qe.JSON()), w.PKI.TcbSign.Key)
+			for _, l := range []int{world.LColl, world.LCrl} {
+				c := w.Case(l, "honest-collateral-signed-with-white-space", fmt.Sprintf("w%d/layout%d", i, i%4))
+				c.Form, c.Expect = mon.Forms[(i+l)%4], "accept"
+				check(x, i, c)
+			}
+		})
+		x.Require("honest-collateral-signed-with-white-space", n*2, 0, n*2)
 	}
 	// one options value in a long-lived verifier: an honest quote is verified, then an endpoint is down for ONE call (of the same
 	// or a higher checking level), then everything is back — the honest quote is accepted again (what the failed call fetched,
